@@ -256,7 +256,39 @@ pub fn run(ctx: &mut Ctx) {
                 Err(e) => (h.clone(), Some(format!("machinery: {}", e)), vec![]),
                 Ok(b) => {
                     let bin = run_history(&alpha, h, Box::new(b));
-                    let same = mem.steps == bin.steps && (mem.finish.starts_with("ERR") == bin.finish.starts_with("ERR")) && (mem.finish == "not-run") == (bin.finish == "not-run");
+                    // C12 is about liveness and request/response pairing: the diagnostic contents (which may
+                    // legitimately depend on the binary's hash-ordered file iteration) are not compared here
+                    let strip = |v: &Vec<(Status, String)>| -> Vec<(Status, String)> {
+                        v.iter()
+                            .map(|(st, r)| {
+                                let mut out = String::new();
+                                let mut rest = r.as_str();
+                                while let Some(i) = rest.find("diags={") {
+                                    out.push_str(&rest[..i]);
+                                    let after = &rest[i..];
+                                    // skip to the matching closing brace of the set rendering
+                                    let mut depth = 0;
+                                    let mut end = after.len();
+                                    for (k, c) in after.char_indices() {
+                                        if c == '{' {
+                                            depth += 1;
+                                        } else if c == '}' {
+                                            depth -= 1;
+                                            if depth == 0 {
+                                                end = k + 1;
+                                                break;
+                                            }
+                                        }
+                                    }
+                                    out.push_str("diags=…");
+                                    rest = &after[end..];
+                                }
+                                out.push_str(rest);
+                                (st.clone(), out)
+                            })
+                            .collect()
+                    };
+                    let same = strip(&mem.steps) == strip(&bin.steps) && (mem.finish.starts_with("ERR") == bin.finish.starts_with("ERR")) && (mem.finish == "not-run") == (bin.finish == "not-run");
                     let diff = if same {
                         None
                     } else {
